@@ -18,6 +18,7 @@ import os, re, shutil
 import vlib
 
 ASIS = {
+    "Stream_acceptdeadline.cfg": "NoReadErrorWhileUp",   # a read deadline left armed by the accept path (seeded c03-accept-read-deadline-never-cleared)
     "Stream_noticefatal.cfg": "NoSpontaneousClose",   # a transient notice must not close the writing side (seeded change c03-any-unreach-cancels-stream)
     "Stream_origincut.cfg": "NoAbort",            # DESIGN.md section 9 #17, open finding
     "Bridge_connect_any.cfg": "E2EEOFOnlyAfterAll",   # inherent to a full-close endpoint: not demanded
